@@ -464,7 +464,7 @@ def TK(T=2):
 # ----------------------------------------------------------------------------------
 # TL: colliding parameter names in utility, auxiliary function, transition and constraint
 # ----------------------------------------------------------------------------------
-def TL(T=2):
+def TL(T=2, sym_next=False):
     from lcm import Model
 
     def utility(c, w, inc, a, b):
@@ -491,12 +491,15 @@ def TL(T=2):
             "beta": mk.real("beta"),
             "utility": {"a": mk.real("a_u"), "b": mk.real("b_u")},
             "inc": {"a": mk.real("a_inc")},
-            "next_w": {"a": 0.5},
+            "next_w": {"a": mk.real("a_next") if sym_next else 0.5},
             "c_constraint": {"a": mk.real("a_con")},
         }
 
     def assume(sy):
-        return [sy["a_con"] >= 0]
+        out = [sy["a_con"] >= 0]
+        if "a_next" in sy:
+            out += [sy["a_next"] >= 0, sy["a_next"] <= 1]
+        return out
 
     def init(mk, n):
         return {"w": mk.real("w0", (n,))}
